@@ -46,4 +46,16 @@ def getPairC (a : Array (Word × Word)) (i : Nat) : Outcome (Word × Word) :=
 def getPairU (a : Array (Word × Word)) (i : Nat) : Outcome (Word × Word) :=
   if h : i < a.size then ok a[i] else fault .oob
 
+/-- control outcome of one iteration of a translated loop body: iterate with a new state, leave the loop (`break`, or the
+`while` condition is false), or `return` from the enclosing function -/
+inductive Ctl (σ ρ : Type) | next (s : σ) | brk (s : σ) | ret (r : ρ)
+
+/-- a `while` / `loop` with an explicit iteration bound (exhausting it is the distinct outcome `fuel`) -/
+def loopM {σ ρ : Type} : Nat → (σ → Outcome (Ctl σ ρ)) → σ → Outcome (Ctl σ ρ)
+  | 0, _, _ => fault .fuel
+  | n + 1, step, s => do
+    match ← step s with
+    | .next s' => loopM n step s'
+    | r => pure r
+
 end Sds.Generated
